@@ -416,3 +416,77 @@ Fixpoint strings_Fields_aux (cur : list N) (s : list N) : list (list N) :=
 Definition strings_Fields (s : list N) : list (list N) := strings_Fields_aux [] s.
 Definition strutil_MakeSet (l : list (list N)) : list (list N) := l.
 Definition go_set_mem (k : list N) (set : list (list N)) : bool := existsb (beq_bytes k) set.
+
+(** ** The abstract [io.Reader]
+
+    What a reader will do: the chunks it delivers, and whether the last chunk
+    comes together with [io.EOF] (both are allowed by the [io.Reader]
+    contract).  One [Read(buf)] returns at most [len(buf)] bytes of the next
+    chunk — a chunk longer than the buffer is delivered over several calls, an
+    empty chunk is a [(0, nil)] read — and, when the script is exhausted,
+    [(0, io.EOF)].  The only error a reader of this model returns is [io.EOF]. *)
+Record go_reader := mkReader { rd_chunks : list (list N); rd_eof_with_last : bool }.
+
+Definition rd_bytes (r : go_reader) : list N := concat (rd_chunks r).
+Definition rd_size (r : go_reader) : nat :=
+  fold_right (fun c n => (S (List.length c) + n)%nat) 0%nat (rd_chunks r).
+
+Definition io_EOF : go_error := Some (GoErr "var" "io.EOF").
+Definition io_ErrUnexpectedEOF : go_error := Some (GoErr "var" "io.ErrUnexpectedEOF").
+
+(** One [r.Read(buf)] with [len(buf) = n]: data, error, the reader after. *)
+Definition rd_read (n : nat) (r : go_reader) : list N * go_error * go_reader :=
+  match rd_chunks r with
+  | [] => ([], io_EOF, r)
+  | d :: cs =>
+      if (List.length d <=? n)%nat then
+        (d, (match cs with [] => if rd_eof_with_last r then io_EOF else None | _ => None end),
+         mkReader cs (rd_eof_with_last r))
+      else (firstn n d, None, mkReader (skipn n d :: cs) (rd_eof_with_last r))
+  end.
+
+(** The loop of [io.ReadAtLeast(r, buf, n)] with [n = len(buf)]: data read,
+    whether the reader reported [io.EOF], the chunks left.  ([n] is binary:
+    a length prefix can ask for 2^63 bytes.) *)
+Definition lenNb {A} (l : list A) : N := N.of_nat (List.length l).
+
+Fixpoint rd_fill (cs : list (list N)) (n : N) (flag : bool) : list N * bool * list (list N) :=
+  match cs with
+  | [] => ([], negb (n =? 0)%N, [])
+  | d :: cs' =>
+      if (n =? 0)%N then ([], false, cs)
+      else if (lenNb d <? n)%N then
+        match cs' with
+        | [] => if flag then (d, true, []) else
+                  let '(acc, e, r) := rd_fill cs' (n - lenNb d) flag in (d ++ acc, e, r)
+        | _ => let '(acc, e, r) := rd_fill cs' (n - lenNb d) flag in (d ++ acc, e, r)
+        end
+      else (firstn (N.to_nat n) d, false,
+            (if (lenNb d =? n)%N then cs' else skipn (N.to_nat n) d :: cs'))
+  end.
+
+(** [io.ReadFull(r, buf)] with [len(buf) = n]: [nil] when the buffer was
+    filled, [io.EOF] when nothing was read, [io.ErrUnexpectedEOF] in between. *)
+Definition io_ReadFull (r : go_reader) (n : Z) : list N * go_error * go_reader :=
+  let '(got, _, cs) := rd_fill (rd_chunks r) (Z.to_N n) (rd_eof_with_last r) in
+  (got,
+   (if (lenNb got =? Z.to_N n)%N then None
+    else match got with [] => io_EOF | _ => io_ErrUnexpectedEOF end),
+   mkReader cs (rd_eof_with_last r)).
+
+(** [io.CopyN(dst, r, n)] into a buffer: what was copied; [io.EOF] when the
+    reader ended first. *)
+Definition io_CopyN (r : go_reader) (n : Z) : list N * go_error * go_reader :=
+  let '(got, _, cs) := rd_fill (rd_chunks r) (Z.to_N n) (rd_eof_with_last r) in
+  (got, (if (lenNb got =? Z.to_N n)%N then None else io_EOF), mkReader cs (rd_eof_with_last r)).
+
+(** [io.ReadAll(r)]: everything, no error. *)
+Definition io_ReadAll (r : go_reader) : list N * go_error * go_reader :=
+  (rd_bytes r, None, mkReader [] (rd_eof_with_last r)).
+
+(** [r.Read(buf)] as the translator emits it: the buffer after the call. *)
+Definition go_fill_buf (buf got : list N) : list N := got ++ skipn (List.length got) buf.
+
+Definition go_max_alloc : Z := 281474976710656.   (* runtime.maxAlloc on linux/amd64 *)
+Definition go_make_bytes (n : Z) : list N := repeat 0%N (Z.to_nat n).
+Definition go_make_ok (n : Z) : bool := (0 <=? n) && (n <=? go_max_alloc).
